@@ -4,7 +4,7 @@ from hypothesis import strategies as st
 
 
 @st.composite
-def group_spec(draw, cp='maybe', with_range='maybe', H='maybe', S='maybe', lo=None, hi=None):
+def group_spec(draw, cp='maybe', with_range='maybe', H='maybe', S='maybe', lo=None, hi=None, from_zero=False):
     """JSON spec of one group's data.  lo/hi: if given, the declared range is drawn inside [lo, hi] hull rules:
     the table and T_ref always lie inside the declared range."""
     has_cp = {'yes': True, 'no': False}.get(cp)
@@ -41,7 +41,7 @@ def group_spec(draw, cp='maybe', with_range='maybe', H='maybe', S='maybe', lo=No
         a = min(Ts + [T_ref]) - draw(st.sampled_from([0.0, 0.0, 1.0, 50.0, 150.0]))
         b = max(Ts + [T_ref]) + draw(st.sampled_from([0.0, 0.0, 1.0, 100.0, 700.0]))
         rng = [max(1.0, a), b]
-        if draw(st.integers(0, 5)) == 0:
+        if from_zero and draw(st.integers(0, 5)) == 0:
             rng[0] = 0.0              # 'valid from 0 K' is a range people write
     hv = {'yes': True, 'no': False}.get(H)
     if hv is None:
